@@ -387,9 +387,13 @@ def _observe(W, f):
         rep["nrow"] = type(e).__name__
     return rep
 
+class _StrSub(str):
+    """a user-defined subclass of str (no behaviour of its own)"""
+
 def _mkvalue(W, spec):
     kind, n, v = spec
     if kind == "scalar": return v
+    if kind == "strsub": return _StrSub(v)
     if kind == "list": return [v] * n
     if kind == "array": return W.np.array([v] * n, dtype=float) if isinstance(v, float) else W.di.Vector([v] * n)
     if kind == "column": return W.di.DataFrameColumn([v] * n, float) if isinstance(v, float) else W.di.DataFrameColumn([v] * n)
@@ -400,7 +404,7 @@ def df_history(inp, W):
     di = W.di
     obs = []
     try:
-        cols = {name: (val if not isinstance(val, list) or not val or not isinstance(val[0], str) or val[0] not in ("scalar", "list", "array", "column") else _mkvalue(W, val))
+        cols = {name: (val if not isinstance(val, list) or not val or not isinstance(val[0], str) or val[0] not in ("scalar", "strsub", "list", "array", "column") else _mkvalue(W, val))
                 for name, val in inp["init"]}
         ctor = inp.get("ctor", "kwargs")
         if ctor == "kwargs": f = di.DataFrame(**cols)
